@@ -216,6 +216,11 @@ func (o c07Outcome) String() string {
 
 func c07Run(g c07Getter, wire []byte, extra, fill int, key []byte, r *gen.Rand, dirty bool) (c07Outcome, string) {
 	var buf []byte
+	if dirty && g.kind != 2 && r.Bool() {
+		// bytes in the buffer behind the declared message length (a datagram read into a larger slice): the decoder
+		// tolerates them and they belong to no attribute
+		wire = append(append([]byte(nil), wire...), r.Bytes(1+r.Intn(12))...)
+	}
 	if extra == 0 {
 		buf = make([]byte, len(wire))
 		copy(buf, wire)
@@ -277,6 +282,45 @@ func c07(c *core.Ctx) {
 		c.Distinct(uint64(i))
 	})
 	c.MarkExhaustive("getter x length 0..40 x position x capacity")
+	// the getter's own attribute is absent: whatever else the message carries (legacy RFC 3489 types included), the
+	// outcome is "not found" - other attributes are never read in its place
+	c.Section("absent-target", int64(len(getters))*c.N(60, 20000), func(i int64, r *gen.Rand) {
+		g := getters[int(i)%len(getters)]
+		if len(g.name) >= 13 && g.name[:13] == "Message.Parse" {
+			return
+		}
+		c.Eval(1)
+		var attrs []ref.Attr
+		for k := r.Intn(5); k > 0; k-- {
+			t := r.PickU16(gen.KnownAttrTypes)
+			if t == g.typ || (g.typ == 0x0020 && t == 0x8020) {
+				continue
+			}
+			v := r.Bytes(r.PickInt([]int{0, 4, 8, 8, 20, 20, r.Intn(30)}))
+			if len(v) >= 2 {
+				v[0], v[1] = 0, byte(1+r.Intn(2)) // plausible address family: the value would parse if it were read
+			}
+			attrs = append(attrs, ref.Attr{Type: t, Value: v})
+		}
+		wire := ref.Encode(uint16(r.U64())&0x3fff, r.TID(), attrs)
+		o, bad := c07Run(g, wire, c07Caps[r.Intn(len(c07Caps))], r.Intn(3), r.Bytes(r.Intn(30)), r, r.Bool())
+		if bad != "" {
+			fatalHarness("C07 absent-target construction: " + bad)
+		}
+		detail := map[string]interface{}{"getter": g.name, "input_hex": core.Hex(wire), "outcome": o.String()}
+		switch {
+		case o.panicked != "":
+			c.Violate("panic", panicKey(o.panicked)+":"+g.name, detail)
+		case o.mutated != "":
+			detail["diff"] = o.mutated
+			c.Violate("side-effect", "side-effect:"+g.name, detail)
+		case o.errc != "not-found":
+			c.Violate("non-local", "absent-target:"+g.name, detail)
+		default:
+			c.Count("absent_target_not_found", 1)
+		}
+		c.Distinct(gen.HashBytes(wire) ^ uint64(i))
+	})
 }
 
 func c07One(c *core.Ctx, r *gen.Rand, g c07Getter, length, posA, extraA int) {
@@ -323,8 +367,14 @@ func c07One(c *core.Ctx, r *gen.Rand, g c07Getter, length, posA, extraA int) {
 			if pos != 2 {
 				for k := 1 + r.Intn(3); k > 0; k-- {
 					a := c07Neighbour(r, twinA, 0)
-					if r.Chance(1, 5) {
+					switch r.Intn(8) {
+					case 0, 1:
 						a.Type = 0x0008
+					case 2, 3: // a FINGERPRINT-typed attribute, not necessarily last, not necessarily 4 bytes
+						a.Type = 0x8028
+						if r.Bool() {
+							a.Value = r.Bytes(4)
+						}
 					}
 					after = append(after, a)
 				}
